@@ -259,11 +259,15 @@ func otherOrders(r *vf.Run) {
 		r.Inconclusive("cannot locate own executable for the mapper-order child runs: " + err.Error())
 		return
 	}
-	for _, o := range orders {
+	for oi, o := range orders {
 		out := filepath.Join(vf.ScratchDir(), "child-"+r.ID+"-"+strings.ReplaceAll(o, ",", ""))
 		_ = os.MkdirAll(out, 0o755)
 		cmd := exec.Command(exe, r.ID, r.Tier)
-		cmd.Env = append(os.Environ(), "VERIF_CHILD=1", "VERIF_MAPPER_ORDER="+o, "VERIF_OUT="+out, fmt.Sprintf("VERIF_SEED=%d", r.Seed))
+		// the number of processors the runtime may use is part of the environment as well: each of
+		// these processes gets another one (this machine's own count is a power of two)
+		procs := []int{3, 6, 12, 1, 5, 7, 24, 2}[(oi+int(r.Seed))%8]
+		r.Cell(fmt.Sprintf("process-gomaxprocs:%d", procs))
+		cmd.Env = append(os.Environ(), "VERIF_CHILD=1", "VERIF_MAPPER_ORDER="+o, "VERIF_OUT="+out, fmt.Sprintf("VERIF_SEED=%d", r.Seed), fmt.Sprintf("GOMAXPROCS=%d", procs))
 		b, err := cmd.CombinedOutput()
 		r.Eval(1)
 		r.Cell("process-order:" + o)
